@@ -120,6 +120,25 @@ Section Final.
       apply in_or_app. right. now left.
   Qed.
 
+  (** ** safety 4: every Nacked attempt is followed by another attempt of the same message at the
+      same stage, or the publication is still pending; at quiescence none is left over *)
+  Theorem redelivered_until_acked k sc srcs ls :
+    let st := run k sc srcs ls in
+    (forall d, In d (unfollowed eqbM (dlog st)) -> In (d_msg d) (topic st (d_stage d)))
+    /\ (quiescentb k st = true -> redelivery_ok eqbM (dlog st) = true).
+  Proof.
+    intros st.
+    pose proof (redel_run hf eqbM rt_handle eqbM_spec k sc srcs ls) as HR. fold st in HR.
+    split; [exact HR|]. intros Hq. apply quiescentb_spec in Hq. unfold redelivery_ok.
+    destruct (unfollowed eqbM (dlog st)) as [|d l] eqn:E; [reflexivity|]. exfalso.
+    assert (Hin : In d (unfollowed eqbM (dlog st))) by (rewrite E; now left).
+    pose proof (safe_run hf eqbM rt_handle eqbM_spec rth_final rth_publishes rth_monitor k sc srcs ls)
+      as [_ Hl].
+    fold st in Hl. rewrite Forall_forall in Hl.
+    destruct (Hl d (unfollowed_incl hf eqbM k _ _ Hin)) as (Hs & _).
+    specialize (HR d Hin). rewrite (Hq _ Hs) in HR. destruct HR.
+  Qed.
+
   (** ** never lost (invariant) *)
   Theorem never_lost k sc srcs ls :
     let st := run k sc srcs ls in
@@ -217,10 +236,12 @@ Section Final.
     let st := run k sc srcs ls in
     log_ok hf eqbM (dlog st) = true
     /\ sink_sound hf eqbM k srcs (topic st k) = true
-    /\ (quiescentb k st = true -> sink_complete hf eqbM k srcs (topic st k) = true).
+    /\ (quiescentb k st = true -> sink_complete hf eqbM k srcs (topic st k) = true)
+    /\ (quiescentb k st = true -> redelivery_ok eqbM (dlog st) = true).
   Proof.
     intros st. split; [apply ack_only_after_next_accepted|].
     split; [apply nothing_invented|].
+    split; [|apply redelivered_until_acked].
     intros Hq.
     pose proof (cover_run hf eqbM rt_handle eqbM_spec rth_final rth_publishes k sc srcs ls) as HC.
     unfold sink_complete. apply forallb_forall. intros y Hy. apply (memb_In eqbM eqbM_spec).
